@@ -143,6 +143,22 @@ def proof_part(prop):
     hits = forbidden_tokens()
     if hits:
         res["problems"].append("forbidden tokens: " + "; ".join(hits[:10]))
+    if os.environ.get("VERIF_TIER_INTERNAL") == "thorough" and files and not res["problems"]:
+        # independent re-check of the compiled property files and everything they depend on
+        mods = " ".join("FI." + os.path.basename(vf)[:-2] for vf in files)
+        qs = " ".join("-Q %s FI" % d for d in ("Common", "Model", "Proofs", "Properties", "L0", "Gen", "Extract"))
+        r = sh(f"timeout 1500 coqchk -silent -o {qs} {mods}", cwd=COQ)
+        out = strip_noise(r.stdout + "\n" + r.stderr)
+        m = re.search(r"\* Axioms:(.*?)\n\s*\n\* Constants/Inductives relying on type-in-type:(.*?)\n\s*\n\* Constants/Inductives relying on unsafe \(co\)fixpoints:(.*?)\n\s*\n\* Inductives whose positivity is assumed:(.*?)\n", out + "\n\n", re.S)
+        if r.returncode != 0 or not m:
+            res["problems"].append("coqchk failed: " + " | ".join(out.splitlines()[-6:]))
+        else:
+            ax = [a.strip() for a in m.group(1).strip().splitlines() if a.strip() and a.strip() != "<none>"]
+            bad = [a for a in ax if a.split()[0] not in ALLOWED_AXIOMS]
+            others = [g.strip() for g in m.groups()[1:] if g.strip() != "<none>"]
+            if bad or others:
+                res["problems"].append(f"coqchk: axioms {bad} / relaxed checks {others}")
+            res["coqchk"] = dict(modules=mods, axioms=ax or ["<none>"], type_in_type="<none>" if not others else others)
     return res
 
 
@@ -223,26 +239,40 @@ def one_run(run, tier, seed, bin_hash):
     if tier == "thorough" and prim != "ringbuf" and os.path.exists(HARNESS_RELEASE):
         # the same histories on the release build (no debug assertions, wrapping arithmetic)
         flavours += [f + "@release" for f in run["flavours"]]
-    for fl in flavours:
+    def run_flavour(fl):
         obs = os.path.join(cdir, f"obs.{fl}.txt")
         binary, base_fl = (HARNESS_RELEASE, fl.split("@")[0]) if fl.endswith("@release") else (HARNESS, fl)
         with open(hist) as hf, open(obs, "w") as of:
             r = subprocess.run([binary, base_fl], stdin=hf, stdout=of, stderr=subprocess.PIPE, text=True)
         crashed = r.returncode != 0
-        r2 = sh([MODELRUN, "compare", hist, obs])
+        # the comparison re-runs the model on every history: shard big files over several processes
+        k = max(1, min(8, nhist // 150000))
+        with concurrent.futures.ThreadPoolExecutor(max_workers=k) as cex:
+            parts = list(cex.map(lambda i: sh([MODELRUN, "compare", hist, obs, str(k), str(i)]), range(k)))
         mm = []
-        for l in r2.stdout.splitlines():
+        summ = {"histories": 0, "steps_compared": 0, "mismatches": 0}
+        for r2 in parts:
+            for l in r2.stdout.splitlines():
+                try:
+                    d = json.loads(l); d["flavour"] = fl; mm.append(d)
+                except Exception:
+                    pass
             try:
-                d = json.loads(l); d["flavour"] = fl; mm.append(d)
+                s1 = json.loads(r2.stderr.strip().splitlines()[-1])
+                for kk in summ:
+                    summ[kk] += s1.get(kk, 0)
             except Exception:
-                pass
-        try:
-            summ = json.loads(r2.stderr.strip().splitlines()[-1])
-        except Exception:
-            summ = {"error": r2.stderr[-300:]}
+                summ = {"error": r2.stderr[-300:]}
+                break
         summ["crashed"] = crashed
         if crashed:
             mm.insert(0, dict(line=0, step=-1, key="crash", expected="", observed=f"harness exit {r.returncode}: {r.stderr[-200:]}", history="", flavour=fl))
+        return fl, summ, mm
+
+    # flavours of one run are independent processes over the same history file
+    with concurrent.futures.ThreadPoolExecutor(max_workers=max(1, min(6, len(flavours)))) as fex:
+        flavour_results = list(fex.map(run_flavour, flavours))
+    for fl, summ, mm in flavour_results:
         result["flavours"][fl] = summ
         perkey = {}
         for d in mm:
@@ -267,6 +297,21 @@ def one_run(run, tier, seed, bin_hash):
     result["op_histogram"] = ophist
     result["wall_s"] = round(time.time() - t0, 2)
     json.dump(result, open(done, "w"))
+    # disk hygiene: histories and traces are reproducible from (binaries, spec, tier, seed); keep
+    # them only when something mismatched, and keep at most three cached results per run name
+    if not result["mismatches"]:
+        for f in glob.glob(os.path.join(cdir, "*.txt")):
+            try:
+                os.remove(f)
+            except OSError:
+                pass
+    try:
+        olds = sorted(glob.glob(os.path.join(BUILD, "corr", name + "-" + "?" * 24)), key=os.path.getmtime, reverse=True)
+        for d in olds[3:]:
+            if d != cdir:
+                shutil.rmtree(d, ignore_errors=True)
+    except OSError:
+        pass
     return result
 
 
@@ -296,7 +341,7 @@ def correspondence(prop, tier, seed):
             if summ.get("error"):
                 problems.append(f"{r['name']}/{fl}: compare failed: {summ['error']}")
         for m in r["mismatches"]:
-            if m.get("flavour") in spec.get("exclude_flavours", []):
+            if (m.get("flavour") or "").split("@")[0] in spec.get("exclude_flavours", []):
                 continue
             if m["key"] in keys or m["key"] in ("crash", "shape"):
                 m = dict(m); m["run"] = r["name"]; mism.append(m)
@@ -385,6 +430,18 @@ def main():
             if m["key"] in spec["direct_keys"] and m.get("history"):
                 if m["key"] == "a" and m.get("observed") in ("0", ""):
                     continue
+                if m["key"] == "r":
+                    # a result mismatch is a failing input by itself only when the real crate
+                    # PANICS in a contract-respecting call that is not a poll (a poll may panic
+                    # legitimately on a diverged implementation: "polled after completion")
+                    hp = m["history"].split(";")
+                    step = m.get("step", -1)
+                    opw = hp[3 + step].split() if 0 <= step < len(hp) - 3 else hp[-1].split()
+                    polls = {"event": ["1"], "mutex": ["1"], "semaphore": ["1"], "mpmc": ["1", "5", "31"],
+                             "oneshot": ["3"], "state": ["4"], "timer": ["3"]}
+                    if hp[0] in polls and not (m.get("observed", "").split()[:1] == ["3"] and m.get("expected", "").split()[:1] != ["3"]
+                                               and opw[:1] and opw[0] not in polls[hp[0]]):
+                        continue
                 parts = m["history"].split(";"); parts[2] = "A"; h = ";".join(parts)
                 fl = m["flavour"].split("@")[0]
                 obs = subprocess.run([HARNESS, fl], input=h + "\n", capture_output=True, text=True).stdout.strip()
@@ -425,6 +482,8 @@ def main():
         samples=samples[:8],
     )
     coverage.update(extra_cov)
+    if proof.get("coqchk"):
+        coverage["coqchk"] = proof["coqchk"]
     if spec["level"] == "other":
         coverage["explanation"] = spec.get("explanation", "")
     ev = dict(property_id=prop, tier=tier, seed=seed, level=spec["level"], coverage=coverage,
